@@ -294,9 +294,10 @@ def enrich_fromaudits(report_: richreports.report, atok) -> richreports.report:
             )
 
         elif isinstance(a, ast.UnaryOp):
+            # The span of a unary operation is its operator: "not" or a single
+            # character ("-", "+", "~"), wherever the operand starts.
             (start, _) = locations(report_, atok, a)
-            (end, _) = locations(report_, atok, a.operand)
-            end = end - (0, 2)
+            end = start + (0, 2 if isinstance(a.op, ast.Not) else 0)
             enrich_from_type(report_, t, start, end)
             if isinstance(a.op, ast.Not):
                 report_.enrich(start, end, "<b>", "</b>", True)
